@@ -315,21 +315,24 @@ func mergeStates(ins []*State, name string, addFact func(*Term)) *State {
 	sort.Strings(hk)
 	for _, k := range hk {
 		srt := heapSorts[k]
-		var acc *Term
-		for i := len(ins) - 1; i >= 0; i-- {
-			v := ins[i].hget(k, srt)
-			if acc == nil {
-				acc = v
-			} else {
-				acc = Ite(ins[i].pc, v, acc)
+		same := true
+		first := ins[0].hget(k, srt)
+		for _, in := range ins[1:] {
+			if in.hget(k, srt) != first {
+				same = false
 			}
 		}
-		if acc.Op == "ite" {
-			nm := Fresh("Hm."+k, srt)
-			addFact(Eq(nm, acc))
-			acc = nm
+		if same {
+			out.heap[k] = first
+			continue
 		}
-		out.heap[k] = acc
+		// arrays: a fresh version equal to each predecessor's under that predecessor's path
+		// condition (guarded equalities are much easier on the solvers than array-sorted ite)
+		nm := Fresh("Hm."+k, srt)
+		for _, in := range ins {
+			addFact(Implies(in.pc, Eq(nm, in.hget(k, srt))))
+		}
+		out.heap[k] = nm
 	}
 	var acc *Term
 	for i := len(ins) - 1; i >= 0; i-- {
